@@ -102,6 +102,7 @@ def cases(tier):
     yield ('frame_series', 0, 0)
     yield ('unlabelled', 0, 0)
     yield ('hier_ops', 0, 0)
+    yield ('date_units', 0, 0)
 
 
 def universe(tier):
@@ -525,6 +526,50 @@ def run_hier_ops(case, ctx):
     ctx.sample({'family': 'hier_ops', 'trees': len(HTREES)}, limit=1)
 
 
+def run_date_units(case, ctx):
+    '''Series / Frames labelled by the same instants held in datetime indices of different units (day, hour, second), every order on both sides:
+    operators, reindex and set operations pair by instant.'''
+    days = ('2020-01-01', '2020-01-02', '2020-01-03', '2020-02-01')
+    val = {d: i + 1 for i, d in enumerate(days)}
+    ctors = {'D': sf.IndexDate, 'h': sf.IndexHour, 's': sf.IndexSecond}
+    seqs = [p for n in (1, 2, 3) for p in itertools.permutations(days[:4], n) if n < 3 or '2020-02-01' not in p or True][:]
+    seqs = [p for p in seqs if len(p) <= 3]
+    for ua, ub in (('D', 's'), ('s', 'D'), ('D', 'h'), ('h', 's')):
+        for sa, sb in itertools.product(seqs, repeat=2):
+            if len(sa) + len(sb) > 5:
+                continue
+            a = sf.Series([val[d] for d in sa], index=ctors[ua](sa))
+            b = sf.Series([val[d] * 10 for d in sb], index=ctors[ub](sb))
+            ctx.state(('date-units', ua, ub, sa, sb))
+            ctx.transition(3)
+            if sa != sb:
+                ctx.nontriv(('date-units', ua, ub, sa, sb))
+            info = dict(units=(ua, ub), a=sa, b=sb)
+            key = lambda x: str(np.datetime64(x, 's'))
+            try:
+                r = a + b
+                got = {key(k): v for k, v in zip(r.index.values, r.values.tolist())}
+                exp = {key(d): (val[d] + val[d] * 10 if d in sa and d in sb else float('nan')) for d in set(sa) | set(sb)}
+                if set(got) != set(exp) or len(r) != len(exp) or any(not (got[k] == exp[k] or (got[k] != got[k] and exp[k] != exp[k])) for k in exp):
+                    ctx.violation('date-units|series.add|values-not-paired-by-instant', **info, got=got, expected=exp)
+                    continue
+                r2 = a.reindex(b.index, fill_value=-1)
+                got2 = [int(v) for v in r2.values.tolist()]
+                exp2 = [val[d] if d in sa else -1 for d in sb]
+                if got2 != exp2:
+                    ctx.violation('date-units|series.reindex|values-not-paired-by-instant', **info, got=got2, expected=exp2)
+                    continue
+                u = a.index.union(b.index)
+                if sorted(key(x) for x in u.values) != sorted(key(d) for d in set(sa) | set(sb)):
+                    ctx.violation('date-units|index.union|label-set', **info, got=[key(x) for x in u.values])
+            except Exception as e:
+                ctx.violation(f'date-units|raises|{type(e).__name__}', **info, error=repr(e))
+    ctx.outcome('date_units')
+    ctx.sample({'family': 'date_units', 'sequences': len(seqs)}, limit=1)
+
+
 def run_case(case, ctx):
+    if case[0] == 'date_units':
+        return run_date_units(case, ctx)
     {'hier_ops': run_hier_ops, 'setops': run_setops, 'setops_ih': run_setops_ih, 'series': run_series, 'frames': run_frames,
      'frame_series': run_frame_series, 'unlabelled': run_unlabelled}[case[0]](case, ctx)
